@@ -30,8 +30,16 @@ type HarnessSpec struct {
 	Note     string            `json:"note"`
 	NoReplay bool              `json:"no_replay"` // schedule-dependent: counterexamples are engine traces
 	NoWitness bool             `json:"no_witness"`
+	Gen         *GenSpec       `json:"gen"`
+	CompileOnly bool           `json:"compile_only"`
 	Race     bool              `json:"race"`
 	Timeout  int               `json:"timeout_s"`
+}
+
+// GenSpec: run the current tree's stub/proxy generator on an IDL file; the output is overlaid into the package.
+type GenSpec struct {
+	IDL  string `json:"idl"`  // relative to /verif
+	Path string `json:"path"` // Go import path of the generated package
 }
 
 type PropertySpec struct {
@@ -69,6 +77,7 @@ type harnessRun struct {
 	wall    float64
 	stderr  string
 	replays []replayOutcome
+	skipped bool
 }
 
 type replayOutcome struct {
@@ -167,6 +176,72 @@ func cmdCheck(args []string) {
 		os.Exit(2)
 	}
 
+	// ---- code generation (C05): run the tree's generator natively, then compile the result ----
+	var violationLines []string
+	genFiles := map[string]string{}
+	genFailed := map[string]bool{}
+	replayDirGen := filepath.Join(root, "replays", prop)
+	for _, r := range runs {
+		g := r.spec.Gen
+		if g == nil {
+			continue
+		}
+		if _, done := genFiles[r.spec.Pkg]; done || genFailed[r.spec.Pkg] {
+			continue
+		}
+		outFile := filepath.Join(scratch, "gen_"+sanitize(r.spec.Pkg)+".go")
+		cmd := exec.Command("go", "run", "-modfile="+modfile, "./meta/cmd/stub", "--idl", filepath.Join(root, g.IDL), "--output", outFile, "--path", g.Path)
+		cmd.Dir = *repo
+		cmd.Env = append(os.Environ(), "GOFLAGS=-mod=mod", "GOPROXY=off", "GOSUMDB=off", "GOTOOLCHAIN=local")
+		out, err := cmd.CombinedOutput()
+		st, _ := os.Stat(outFile)
+		label := ""
+		detail := ""
+		if err != nil || st == nil || st.Size() == 0 {
+			label = "generator-failed[" + filepath.Base(r.spec.Pkg) + "]"
+			detail = "the stub/proxy generator failed on a well-formed IDL package: " + tail(string(out), 600)
+		} else {
+			// does the generated code compile (together with the harness of that package)?
+			ov := map[string]string{
+				filepath.Join(*repo, "internal/zzverif/sym/sym.go"): filepath.Join(root, "harness/sym/sym.go"),
+				filepath.Join(*repo, r.spec.Pkg, "zz_gen.go"):       outFile,
+			}
+			files, _ := filepath.Glob(filepath.Join(root, "harness", r.spec.Pkg, "*.go"))
+			for _, f := range files {
+				ov[filepath.Join(*repo, r.spec.Pkg, "zz_verif_"+filepath.Base(f))] = f
+			}
+			ovData, _ := json.Marshal(map[string]interface{}{"Replace": ov})
+			ovFile := filepath.Join(scratch, "ov_gen_"+sanitize(r.spec.Pkg)+".json")
+			os.WriteFile(ovFile, ovData, 0644)
+			b := exec.Command("go", "build", "-tags", "verif", "-modfile="+modfile, "-overlay", ovFile, "./"+r.spec.Pkg)
+			b.Dir = *repo
+			b.Env = cmd.Env
+			bout, berr := b.CombinedOutput()
+			if berr != nil {
+				label = "generated-code-compiles[" + filepath.Base(r.spec.Pkg) + "]"
+				detail = "the generated proxy/stub code does not compile: " + tail(string(bout), 900)
+			}
+		}
+		if label == "" {
+			genFiles[r.spec.Pkg] = outFile
+			continue
+		}
+		genFailed[r.spec.Pkg] = true
+		v := &Violation{Label: label, Kind: "gen", Site: g.IDL, Detail: detail, Harness: r.spec.Func}
+		if kf := matchKnown(known, prop, r.spec.Func, v); kf != nil {
+			fmt.Printf("KNOWN-FINDING: property=%s %s [label=%s]\n", prop, kf.What, kf.Label)
+			continue
+		}
+		os.MkdirAll(replayDirGen, 0755)
+		f := filepath.Join(replayDirGen, sanitize(label)+".json")
+		idlText, _ := os.ReadFile(filepath.Join(root, g.IDL))
+		d, _ := json.MarshalIndent(map[string]interface{}{"property": prop, "kind": "generated-code", "label": label, "idl": string(idlText), "detail": detail,
+			"replay_kind": "native: go run ./meta/cmd/stub on the IDL, then go build"}, "", " ")
+		os.WriteFile(f, d, 0644)
+		fmt.Printf("  label=%s idl=%s: %s\n", label, g.IDL, tail(detail, 400))
+		violationLines = append(violationLines, fmt.Sprintf("VIOLATION property=%s replay=%s", prop, f))
+	}
+
 	exe, _ := os.Executable()
 	sem := make(chan bool, *jobs)
 	var wg sync.WaitGroup
@@ -176,12 +251,19 @@ func cmdCheck(args []string) {
 			defer wg.Done()
 			sem <- true
 			defer func() { <-sem }()
+			if r.spec.CompileOnly || genFailed[r.spec.Pkg] {
+				r.skipped = true
+				return
+			}
 			ts := time.Now()
 			outFile := filepath.Join(scratch, fmt.Sprintf("res-%d.json", i))
 			a := []string{"run", "-repo", *repo, "-pkg", r.spec.Pkg, "-func", r.spec.Func, "-harness", filepath.Join(root, "harness"),
 				"-modfile", modfile, "-out", outFile}
 			for k, v := range r.spec.Args {
 				a = append(a, "-"+k+"="+v)
+			}
+			if gf, ok := genFiles[r.spec.Pkg]; ok {
+				a = append(a, "-extra="+filepath.Join(*repo, r.spec.Pkg, "zz_gen.go")+"="+gf)
 			}
 			if *tier == "thorough" {
 				a = append(a, "-qtimeout=60000")
@@ -230,6 +312,9 @@ func cmdCheck(args []string) {
 	knownHit := map[string]*KnownFinding{}
 	knownCount := map[string]int{}
 	for _, r := range runs {
+		if r.skipped {
+			continue
+		}
 		if r.err != "" {
 			inconclusive = append(inconclusive, r.spec.Func+": "+r.err)
 			continue
@@ -262,7 +347,7 @@ func cmdCheck(args []string) {
 	os.MkdirAll(replayDir, 0755)
 	rp := newReplayer(*repo, root, scratch, modfile)
 	nValidated := 0
-	var violationLines []string
+	rp.genFiles = genFiles
 	// witnesses: one per harness and reach label
 	for _, r := range runs {
 		if r.out == nil || r.spec.NoWitness {
@@ -374,6 +459,10 @@ func cmdCheck(args []string) {
 
 func summarize(prop, tier string, runs []*harnessRun, wall float64) {
 	for _, r := range runs {
+		if r.skipped {
+			fmt.Printf("  %-28s compile-only / generation step\n", r.spec.Func)
+			continue
+		}
 		if r.out == nil {
 			fmt.Printf("  %-28s FAILED %s\n", r.spec.Func, tail(r.err, 300))
 			continue
@@ -489,6 +578,7 @@ func writeReplay(path, prop string, h HarnessSpec, kind, label string, ins []Inp
 
 type replayer struct {
 	repo, root, scratch, modfile string
+	genFiles                     map[string]string
 	bins                         map[string]string // pkg -> test binary
 	binErr                       map[string]string
 	mu                           sync.Mutex
@@ -542,6 +632,9 @@ func (rp *replayer) build(pkg string, race bool) (string, string) {
 	hdir := filepath.Join(rp.root, "harness", pkg)
 	overlay := map[string]string{
 		filepath.Join(rp.repo, "internal/zzverif/sym/sym.go"): filepath.Join(rp.root, "harness/sym/sym.go"),
+	}
+	if gf, ok := rp.genFiles[pkg]; ok {
+		overlay[filepath.Join(rp.repo, pkg, "zz_gen.go")] = gf
 	}
 	files, _ := filepath.Glob(filepath.Join(hdir, "*.go"))
 	pkgName := ""
@@ -660,6 +753,10 @@ func writeEvidence(root, prop, tier string, seed int, ps *PropertySpec, runs []*
 	q := map[string]float64{}
 	outside := 0
 	for _, r := range runs {
+		if r.skipped {
+			perHarness = append(perHarness, map[string]interface{}{"harness": r.spec.Func, "pkg": r.spec.Pkg, "note": "generation + compilation step only"})
+			continue
+		}
 		if r.out == nil {
 			perHarness = append(perHarness, map[string]interface{}{"harness": r.spec.Func, "error": r.err})
 			continue
